@@ -1116,7 +1116,7 @@ Definition l1_resolution_loss (min_length max_length x0 x1 y0 y1 : R) : res :=
 Definition l1_curvature_loss (area_factor euclid_factor horizontal_factor x0 x1 x2 x3 y0 y1 y2 y3 : R) : R :=
   let t1 := (x2 - x1) in
   let t2 := (y2 - y1) in
-  (((area_factor * (sqrt ((((Rabs (((x0 - x2) * (y1 - y2)) - ((x1 - x2) * (y0 - y2)))) / 2) + ((Rabs (((x1 - x3) * (y2 - y3)) - ((x2 - x3) * (y1 - y3)))) / 2)) / 2))) + (euclid_factor * t1)) + (horizontal_factor * (sqrt ((t1 * t1) + (t2 * t2))))).
+  (((area_factor * (sqrt ((((Rabs (((x0 - x2) * (y1 - y2)) - ((x1 - x2) * (y0 - y2)))) / 2) + ((Rabs (((x1 - x3) * (y2 - y3)) - ((x2 - x3) * (y1 - y3)))) / 2)) / 2))) + (euclid_factor * (sqrt ((t1 * t1) + (t2 * t2))))) + (horizontal_factor * t1)).
 
 (* learner1D.linspace -- n = 1 (empty list printed as 0); 1 path(s) *)
 Definition l1_linspace1 (a b : R) : R :=
